@@ -470,9 +470,27 @@ def run(chk):
     # the digest buffer of exactly the digest length: word counts of the C digest writers
     from . import padding
     padding.rule_digest_words(chk, P, 'P5')
+    run_w4(chk)
 
 
 if __name__ == '__main__':
     import sys as _sys
     if '--write-baseline' in _sys.argv:
         print(write_mask_baseline())
+
+
+
+def run_w4(chk):
+    """W4: `cmp len, T; jb small; ...; add p, len; vmovdqu x, [p - K + ..]` copies the last K bytes of a message of length len: the guard must
+    ensure len >= K, or the copy starts before the caller's buffer (the bytes land in an unused part of the staging block, so no test sees it)"""
+    from .. import insnscan
+    r = chk.rule('W4', 'a copy of the last K bytes of a message (pointer advanced by the length, loads at negative offsets) is guarded by a length '
+                       'threshold of at least K: it never starts before the caller\'s buffer', floor=10)
+    for rel, lst in sorted(insnscan.tail_reads().items()):
+        for x in lst:
+            if x['T'] is None:
+                r.note('%s %s+%#x: no threshold found for the tail copy of %d bytes' % (rel, x['fn'], x['a'], x['K']))
+                continue
+            r.check(x['K'] <= x['T'], '%s:%s+%#x' % (rel, x['fn'], x['a']), rel,
+                    '%s (%s): the last %d bytes of the message are read (offsets down to -%d from the end) for every length >= %d: for lengths '
+                    '%d..%d the read starts before the caller\'s buffer' % (x['fn'], rel, x['K'], x['K'], x['T'], x['T'], x['K'] - 1))
